@@ -56,7 +56,7 @@ void generate(sim::Rng &r, uint64_t seed, const std::string &tier, sim::Plan &p)
     else if (kind == 2) a = r.below(2);
     else if (kind == 1) c1 = r.chance(400) ? r.range(1, 3) : 0;     // a one-shot that is enabled again from inside its own callback, c1 times
     else if (kind == 3) {
-      a = far ? r.range(4, 5) : r.range(0, 9);   // shape
+      a = far ? r.pick((const long[]){4, 5, 10}) : r.range(0, 10);   // shape
       c1 = r.range(0, 59); c2 = r.range(0, 23); c3 = r.range(1, 28);
     }
     op.a = {kind, sod, a, tz, c1, c2, c3};
@@ -167,6 +167,7 @@ void build_cron(Spec &s, long shape, long c1, long c2, long c3) {
     case 2: snprintf(b, sizeof b, "%d */15 %d * * *", sec, hour); s.cs = {sec}; s.cm = {0, 15, 30, 45}; s.ch = {hour}; break;
     case 3: snprintf(b, sizeof b, "%d %d %d ? * %d", sec, min, hour, dow); s.cs = {sec}; s.cm = {min}; s.ch = {hour}; s.cdow = {dow}; break;   // weekly
     case 4: snprintf(b, sizeof b, "%d %d %d %d %d ?", sec, min, hour, dom, mon); s.cs = {sec}; s.cm = {min}; s.ch = {hour}; s.cdom = {dom}; s.cmon = {mon}; break;   // yearly
+    case 10: snprintf(b, sizeof b, "%d %d %d 29 2 ?", sec, min, hour); s.cs = {sec}; s.cm = {min}; s.ch = {hour}; s.cdom = {29}; s.cmon = {2}; break;   // leap day: up to four (around 2100: eight) years away
     case 6: { int s2 = (sec + 30) % 60; snprintf(b, sizeof b, "%d,%d %d * * * *", sec, s2, min); s.cs = {sec, s2}; s.cm = {min}; break; }                         // two seconds values in one minute of every hour
     case 7: snprintf(b, sizeof b, "*/20 */30 %d * * *", hour); s.cs = {0, 20, 40}; s.cm = {0, 30}; s.ch = {hour}; break;
     case 8: { int m2 = (min + 17) % 60, h2 = (hour + 5) % 24; snprintf(b, sizeof b, "%d %d,%d %d,%d * * *", sec, min, m2, hour, h2); s.cs = {sec}; s.cm = {min, m2}; s.ch = {hour, h2}; break; }
@@ -362,7 +363,7 @@ void execute(const sim::Plan &plan) {
     if (s.spec.kind == 0) { auto *al = new WeeklyAlarm(W.loop); std::string m; s.spec.arg &= 127; if (!s.spec.arg) s.spec.arg = 1; for (int b = 0; b < 7; ++b) m.push_back(((s.spec.arg >> b) & 1) ? '1' : '0'); s.init_ok = al->initialize((int)s.spec.sod, m); s.alarm = al; }
     else if (s.spec.kind == 1) { auto *al = new OneshotAlarm(W.loop); s.init_ok = al->initialize((int)s.spec.sod); s.alarm = al; }
     else if (s.spec.kind == 2) { auto *al = new WorkdayAlarm(W.loop); s.spec.arg = s.spec.arg ? 1 : 0; s.init_ok = al->initialize((int)s.spec.sod, &W.cal, s.spec.arg != 0); s.alarm = al; }
-    else { auto *al = new CronAlarm(W.loop); build_cron(s.spec, ((op.arg(2) % 10) + 10) % 10, std::max(0L, op.arg(4)), std::max(0L, op.arg(5)), op.arg(6)); s.init_ok = al->initialize(s.spec.cron); s.alarm = al; }
+    else { auto *al = new CronAlarm(W.loop); build_cron(s.spec, ((op.arg(2) % 11) + 11) % 11, std::max(0L, op.arg(4)), std::max(0L, op.arg(5)), op.arg(6)); s.init_ok = al->initialize(s.spec.cron); s.alarm = al; }
     if (!s.init_ok) sim::violation("C20/initialize-failed", sim::fmt("initialize() rejected a valid configuration (kind %d)", s.spec.kind));
     s.alarm->setTimezone((int)tz);
     s.alarm->setCallback(cbf);
